@@ -87,4 +87,28 @@ theorem limited_load_then_replication_forgot_a_branch_before_the_fix :
     (s.loadEnd acl [([e6], [e6])]).remoteHeads = some [6, 5] := by
   decide
 
+/-- what `Load` hands to `Join` after a restart: entries of this log that `Join` accepts, nothing
+else (after the `fix:` commits, findings F27 and F29) — so `Join` never refuses the fetched log as a
+whole, and the valid entries of a cached head come back whatever their ancestry holds -/
+theorem reload_joins_only_entries_join_accepts (acl : Acl) (id : Nat) (fetch : Nat → OMap) (h : Nat) :
+    ∀ e ∈ goodFetch acl id fetch h, acceptable acl.canAppend e = true ∧ e.logId = id := by
+  intro e he
+  unfold goodFetch at he
+  obtain ⟨h1, h2⟩ := List.mem_filter.mp he
+  unfold ownFetch at h1
+  exact ⟨h2, by simpa using (List.mem_filter.mp h1).2⟩
+
+/-- Refutation witness for the tree before the F29 repair: entry 2 (by writer 3) names the refused
+entry 1 as its parent; the replicator had merged 2 on arrival, but `Load` from the cached head 2
+handed both to `Join`, which refused the lot: the log stayed empty after the restart (replayed on
+the real store with an acknowledged local write on top: corpus/C05/f29). Now 2 comes back. -/
+theorem refused_ancestor_lost_the_valid_entries_above_it_before_the_fix :
+    let bad  : Entry := { hash := 1, logId := 1, time := 1, cid := 0, next := [], ident := 9, key := 9 }
+    let good : Entry := { hash := 2, logId := 1, time := 2, cid := 3, next := [1], ident := 3, key := 3 }
+    let acl : Acl := { ids := [3] }
+    let fetch : Nat → OMap := fun _ => [good, bad]
+    loadHead acl (ownFetch 1 fetch) (-1) (Log.empty 1) 2 = .ok (Log.empty 1) ∧
+    (∃ L, loadHead acl (goodFetch acl 1 fetch) (-1) (Log.empty 1) 2 = .ok L ∧ good ∈ L.entries ∧ bad ∉ L.entries) := by
+  refine ⟨rfl, ⟨_, rfl, ?_, ?_⟩⟩ <;> decide
+
 end Orbit.C05
